@@ -54,6 +54,11 @@ def inv_name(g):
     return g.upper() if g == g.lower() else g.lower()
 
 
+def inv_formal(g):
+    """utils.words.formal_inverse applied to a name: letters reversed and case-swapped ('x1' -> '1X')"""
+    return "".join(c.swapcase() for c in reversed(g))
+
+
 # --------------------------------------------------------------------------- matrices
 
 def _elem(rng, n, cplx):
@@ -151,7 +156,7 @@ def sym2_char(tr1, tr2):
 
 class Handle:
     __slots__ = ("id", "real", "gens", "order", "n", "kind", "simple", "dtype", "parent", "how",
-                 "relations", "family", "abs_err", "extra")
+                 "relations", "family", "abs_err", "extra", "invf")
 
     def __init__(self, hid, real, simple, kind="plain", parent=None, how="new", family=None):
         self.id = hid
@@ -168,6 +173,7 @@ class Handle:
         self.family = family or hid
         self.abs_err = 0.0      # bound on the absolute error its generators inherited from derivations
         self.extra = {}         # multi-character generators of a single-character representation
+        self.invf = inv_name    # how this representation names the inverse of a generator
 
     def has_complex(self):
         return any(np.any(np.abs(M.imag) > 0) for M in list(self.gens.values()) + list(self.extra.values()))
@@ -181,7 +187,7 @@ class Handle:
     def kappa(self):
         k = 1.0
         for g, M in self.gens.items():
-            k = max(k, ninf(M) * ninf(self.gens[inv_name(g)]))
+            k = max(k, ninf(M) * ninf(self.gens[self.invf(g)]))
         for g, M in self.extra.items():
             k = max(k, ninf(M) * ninf(self.extra[inv_name(g)]))
         return k
@@ -244,8 +250,12 @@ class Engine:
             "maxdim": 30,
             "mixed_dtypes": rng.random() < 0.3,
             "mixed_names": rng.random() < 0.25,
+            "invmode": "default",
             "scribble": rng.random() < 0.3,
         }
+        if cfg["multi"] and rng.random() < 0.4:
+            # a custom inverse-naming map: Representation(invert_gen=utils.words.formal_inverse)
+            cfg["invmode"] = "formal"
         w = {"new": 5, "assign": 30, "derive": 25, "observe": 25, "relations": 4, "reject": 2, "drop": 4}
         style = rng.choice(["flat", "assign", "derive", "observe"])
         if style != "flat":
@@ -296,7 +306,8 @@ class Engine:
 
     def _probe_words(self, rng, cfg, k=4):
         names = self._names(cfg)
-        letters = names + [inv_name(g) for g in names]
+        inv = inv_formal if cfg.get("invmode") == "formal" else inv_name
+        letters = names + [inv(g) for g in names]
         out = []
         for _ in range(k):
             out.append([rng.choice(letters) for _ in range(rng.randint(3, 10))])
@@ -329,7 +340,7 @@ class Engine:
     def _gen_new(self, rng, world):
         cfg = world.cfg
         return {"op": "new", "new": self._new_id(world), "simple": not cfg["multi"],
-                "explicit_flag": rng.random() < 0.5}
+                "explicit_flag": rng.random() < 0.5, "invmode": cfg.get("invmode", "default")}
 
     def _gen_assign(self, rng, world):
         cfg = world.cfg
@@ -520,19 +531,26 @@ class Engine:
     def _do_new(self, world, op, vs):
         simple = bool(op["simple"])
         try:
-            if simple and not op.get("explicit_flag"):
+            if op.get("invmode") == "formal" and not simple:
+                real = self.representation.Representation(parse_simple=False,
+                                                          invert_gen=self.words.formal_inverse)
+                world.stats["probe.custom_invert_gen"] += 1
+            elif simple and not op.get("explicit_flag"):
                 real = self.representation.Representation()
             else:
                 real = self.representation.Representation(parse_simple=simple)
         except Exception as e:
             self._fail(vs, "R.new.raised", "Representation() raised %r" % (e,))
             return "raised:" + type(e).__name__
-        world.handles[op["new"]] = Handle(op["new"], real, simple)
+        h = Handle(op["new"], real, simple)
+        if op.get("invmode") == "formal" and not simple:
+            h.invf = inv_formal
+        world.handles[op["new"]] = h
         return "ok"
 
     def _set(self, h, g, M):
         h.gens[g] = M
-        h.gens[inv_name(g)] = np.linalg.inv(M)
+        h.gens[h.invf(g)] = np.linalg.inv(M)
         low = g if g == g.lower() else g.lower()
         if low not in h.order:
             h.order.append(low)
@@ -547,7 +565,7 @@ class Engine:
             return "skipped:sym"
         if len(g) > 1 and h.simple and (h.kind != "plain" or not h.gens):
             return "skipped:extra-name"
-        name = inv_name(g) if op.get("via_inverse") else g
+        name = h.invf(g) if op.get("via_inverse") else g
         arr = self._wrap(h.kind, to_dtype(M, op["dtype"]))
         try:
             if op.get("how") == "set_generator":
@@ -619,6 +637,7 @@ class Engine:
         a = h.real
         nh = Handle(op["new"], None, h.simple, h.kind, h.id, how, h.family)
         nh.n, nh.dtype = h.n, h.dtype
+        nh.invf = h.invf if how != "subgroup" else inv_name
         F = None
         try:
             if how == "copy":
@@ -687,7 +706,7 @@ class Engine:
                 nh.simple = True
                 for nm, w in zip(names, ws):
                     nh.gens[nm] = h.value(w)[0]
-                    nh.gens[nm.upper()] = h.value([inv_name(x) for x in reversed(w)])[0]
+                    nh.gens[nm.upper()] = h.value([h.invf(x) for x in reversed(w)])[0]
             elif how == "astype":
                 if op["dtype"] != "complex128" and h.has_complex():
                     return "skipped:complex-to-real-cast"      # the caller asked to drop imaginary parts
@@ -727,10 +746,10 @@ class Engine:
         elif how == "subgroup":
             e = 0.0
             for w in op["words"]:
-                for ww in (w, [inv_name(x) for x in reversed(w)]):
+                for ww in (w, [h.invf(x) for x in reversed(w)]):
                     V, b = h.value(ww)
                     ev = h.tol(ww, b, kp)
-                    Vi, bi = h.value([inv_name(x) for x in reversed(ww)])
+                    Vi, bi = h.value([h.invf(x) for x in reversed(ww)])
                     e = max(e, ev * (1 + ninf(Vi) ** 2))
             nh.abs_err = e
         elif how == "tensor":
@@ -906,7 +925,7 @@ class Engine:
             try:
                 u = np.asarray(self._eval(h, w2[:cut], accessor), dtype=np.complex128)
                 v = np.asarray(self._eval(h, w2[cut:], accessor), dtype=np.complex128)
-                red = _reduce(w2)
+                red = _reduce(w2, h.invf)
                 if h.simple:
                     # the library's own free reduction
                     lib = self.words.simplify_word("".join(w2))
@@ -1014,10 +1033,10 @@ def _safe_rel(rep):
         return "?"
 
 
-def _reduce(w):
+def _reduce(w, inv=inv_name):
     out = []
     for x in w:
-        if out and out[-1] == inv_name(x):
+        if out and out[-1] == inv(x):
             out.pop()
         else:
             out.append(x)
